@@ -52,7 +52,20 @@ const (
 	// A no-op with no open iterator or with the iterator at the end. It makes "remove under a parked iterator" as
 	// likely on a map of hundreds of entries as it is on a map of three.
 	OpRemAt = "remat"
+
+	// Ops of the many-iterators family (rapid part only; bulk ops, expanded like the ones above).
+	// OpStagger: open iterator #j is advanced by (I+j) mod (N+1) Next calls, so that any number of iterators is spread
+	// over the positions 0..N of a small map by one op.
+	// OpPinRun: N rounds of [Add(Key); NewIterator; Next on it until it stands in front of the new entry; HasNext;
+	// Remove(Key)]: every round leaves one more removed entry that is pinned by its own iterator directly behind the one of
+	// the previous round - a run of N consecutive removed-but-pinned entries which every later iterator has to step over.
+	OpStagger = "stagger"
+	OpPinRun  = "pinrun"
 )
+
+// ManyIts: a case that allows more open iterators than this keeps a per-position count of the iterators (runner.cnt)
+// instead of scanning the list of open iterators at every call; the verdicts and the classification are the same.
+const ManyIts = 64
 
 // MaxKeys bounds the key alphabet.
 const MaxKeys = 8192
@@ -99,6 +112,11 @@ type Info struct {
 	DrainParkedPeak  int  // largest peak (live entries) at such a Remove
 	QuietAfterDrain  int  // the last open iterator was closed after such a Remove, and the map was used (or the case ended) afterwards
 	RemAt            int  // effective "remat" ops
+	RemovePinnedOpen int  // largest number of open iterators at a Remove of an entry an iterator is parked on
+	RemovePinned256  int  // ... such Removes with the number of open iterators a multiple of 256 (> 0)
+	RemovePinned64K  int  // ... a multiple of 65536 (> 0)
+	PinnedRun        int  // longest run of consecutive removed entries each pinned by an iterator, measured at the end of a pinrun op
+	Staggered        int  // effective "stagger" ops
 	PostMortem       bool // structural mode: a functional divergence ended the case; the structure was still evaluated there and with every iterator closed
 	BulkOps          int  // bulk ops expanded
 	StepCap          bool // MaxSteps was reached: the rest of the list was not executed
@@ -168,6 +186,22 @@ func (i Info) Classes() []string {
 	}
 	add(i.QuietAfterDrain, "all_iterators_closed_after_drain_with_parked_iterator")
 	add(i.RemAt, "remove_at_iterator_position")
+	for _, n := range []int{255, 256, 257, 65535, 65536, 65537, 131072} {
+		if i.MaxOpen >= n {
+			c = append(c, fmt.Sprintf("open_iterators_ge_%d", n))
+		}
+		if i.RemovePinnedOpen >= n {
+			c = append(c, fmt.Sprintf("remove_pinned_with_open_iterators_ge_%d", n))
+		}
+	}
+	add(i.RemovePinned256, "remove_pinned_with_open_iterators_multiple_of_256")
+	add(i.RemovePinned64K, "remove_pinned_with_open_iterators_multiple_of_65536")
+	add(i.Staggered, "iterators_staggered_over_positions")
+	for _, n := range []int{64, 1024, 10000, 30000} {
+		if i.PinnedRun >= n {
+			c = append(c, fmt.Sprintf("run_of_pinned_removed_entries_ge_%d", n))
+		}
+	}
 	if i.PostMortem {
 		c = append(c, "map_structure_evaluated_after_functional_divergence")
 	}
@@ -302,6 +336,32 @@ type runner struct {
 	stray      iterable.Iterator[entryT] // scan: its iterator, while a functional verdict of the scan leaves it open
 	kbuf       [16]int
 	id         uint64 // number of this run (watchdog)
+	many       bool    // c.MaxIt > ManyIts: cnt and lo are maintained
+	cnt        []int32 // cnt[p] = number of open iterators whose model position is p
+	lo         int     // no open iterator is, or will ever be, at a position below lo
+}
+
+func (r *runner) cntAdd(p int, d int32) {
+	for len(r.cnt) <= p {
+		r.cnt = append(r.cnt, 0)
+	}
+	r.cnt[p] += d
+}
+
+func (r *runner) cntAt(p int) int32 {
+	if p < len(r.cnt) {
+		return r.cnt[p]
+	}
+	return 0
+}
+
+// setPos moves an open iterator of the model.
+func (r *runner) setPos(it *iter, p int) {
+	if r.many && p != it.pos {
+		r.cntAdd(it.pos, -1)
+		r.cntAdd(p, 1)
+	}
+	it.pos = p
 }
 
 // MaxSteps bounds the single ops executed by one case (bulk ops multiply); the ops beyond it are
@@ -310,10 +370,14 @@ const MaxSteps = 30000
 
 // maxSteps: key spaces beyond 1024 get room for a few fill/drain rounds over the whole space.
 func (r *runner) maxSteps() int {
+	n := MaxSteps
 	if r.c.Keys > 1024 {
-		return MaxSteps + 4*r.c.Keys
+		n += 4 * r.c.Keys
 	}
-	return MaxSteps
+	if r.many { // opening, spreading, reading out and closing that many iterators on a small map
+		n += 40 * r.c.MaxIt
+	}
+	return n
 }
 
 // ---------------------------------------------------------------------------------------------
@@ -377,8 +441,10 @@ func (r *runner) where() string {
 			pre += fmt.Sprintf("%s(from %s, n=%d, rev=%v) single op %d: ", t.K, r.key(t.Key), t.N, t.Rev, r.sub)
 		case OpChurn:
 			pre += fmt.Sprintf("%s(from %s, n=%d, rev=%v, rounds=%d) single op %d: ", t.K, r.key(t.Key), t.N, t.Rev, mod(t.I, 4)+1, r.sub)
-		case OpNextN:
+		case OpNextN, OpStagger:
 			pre += fmt.Sprintf("%s(i=%d, n=%d) single op %d: ", t.K, t.I, t.N, r.sub)
+		case OpPinRun:
+			pre += fmt.Sprintf("%s(key %s, n=%d) single op %d: ", t.K, r.key(t.Key), t.N, r.sub)
 		default:
 			pre += fmt.Sprintf("%s(n=%d, rev=%v) single op %d: ", t.K, t.N, t.Rev, r.sub)
 		}
@@ -420,7 +486,7 @@ func Run(c Case, structural bool) (info Info, v *vstat.Violation) {
 	if c.MaxIt < 0 {
 		c.MaxIt = 0
 	}
-	r := &runner{c: c, structural: structural, info: &info}
+	r := &runner{c: c, structural: structural, info: &info, many: c.MaxIt > ManyIts}
 	runCount++
 	r.id = runCount
 	inFlight.Store(r)
@@ -587,6 +653,39 @@ func (r *runner) execTop(op Op) *vstat.Violation {
 				}
 			}
 		}
+	case OpStagger:
+		n := clip(op.N, 0, keys+1)
+		for j, open := 0, len(r.its); j < open; j++ {
+			for d := mod(op.I+j, n+1); d > 0; d-- {
+				if !sub(Op{K: OpNext, I: j}) {
+					return v
+				}
+			}
+		}
+		if len(r.its) > 0 {
+			r.info.Staggered++
+		}
+	case OpPinRun:
+		for j, n := 0, clip(op.N, 0, r.c.MaxIt); j < n; j++ {
+			if !sub(Op{K: OpAdd, Key: op.Key, V: op.V}) || !sub(Op{K: OpIter}) {
+				return v
+			}
+			last := len(r.its) - 1
+			if last < 0 {
+				break
+			}
+			if s, ok := r.md.live.get(mod(op.Key, keys)); ok { // walk the new iterator up to the entry of Key
+				for r.its[last].pos < s && r.md.nextLive(r.its[last].pos) < s && !r.info.StepCap {
+					if !sub(Op{K: OpNext, I: last}) {
+						return v
+					}
+				}
+			}
+			if !sub(Op{K: OpHas, I: last}) || !sub(Op{K: OpRem, Key: op.Key}) {
+				return v
+			}
+		}
+		r.info.PinnedRun = max(r.info.PinnedRun, r.pinnedRun())
 	case OpCloseAll:
 		for n := len(r.its); n > 0 && len(r.its) > 0; n-- {
 			i := 0
@@ -636,6 +735,9 @@ func (r *runner) parked(it *iter) bool {
 }
 
 func (r *runner) shared(it *iter) bool {
+	if r.many {
+		return r.cntAt(it.pos) > 1
+	}
 	for _, o := range r.its {
 		if o != it && o.pos == it.pos {
 			return true
@@ -698,13 +800,25 @@ func (r *runner) exec(op Op) (done bool, v *vstat.Violation) {
 		seq, present := md.live.get(ki)
 		if present {
 			pinned := false
-			for _, it := range r.its {
-				if it.pos == seq {
-					pinned = true
+			if r.many {
+				pinned = r.cntAt(seq) > 0
+			} else {
+				for _, it := range r.its {
+					if it.pos == seq {
+						pinned = true
+					}
 				}
 			}
 			if pinned {
 				r.info.RemovePinned++
+				open := len(r.its)
+				r.info.RemovePinnedOpen = max(r.info.RemovePinnedOpen, open)
+				if open%256 == 0 {
+					r.info.RemovePinned256++
+				}
+				if open%65536 == 0 {
+					r.info.RemovePinned64K++
+				}
 				if md.nextLive(0) == seq {
 					r.info.RemovePinnedHead++
 				}
@@ -774,9 +888,19 @@ func (r *runner) exec(op Op) (done bool, v *vstat.Violation) {
 		// A removed entry on which another iterator is parked may still precede the oldest live
 		// entry; starting there is the same position for the oracle (no live entry in between)
 		// and keeps the "parked" classification exact.
-		for _, o := range r.its {
-			if r.parked(o) && o.pos < it.pos {
-				it.pos = o.pos
+		if r.many {
+			// every position below the oldest live entry holds a removed entry, so an iterator found there is parked;
+			// iterators only move forwards and a new one starts here: lo never has to go back
+			for r.lo < it.pos && r.cntAt(r.lo) == 0 {
+				r.lo++
+			}
+			it.pos = min(it.pos, r.lo)
+			r.cntAdd(it.pos, 1)
+		} else {
+			for _, o := range r.its {
+				if r.parked(o) && o.pos < it.pos {
+					it.pos = o.pos
+				}
 			}
 		}
 		r.its = append(r.its, it)
@@ -807,6 +931,20 @@ func (r *runner) exec(op Op) (done bool, v *vstat.Violation) {
 	return true, nil
 }
 
+// pinnedRun: the longest run of consecutive removed entries each of which has an iterator parked on it (many mode).
+func (r *runner) pinnedRun() int {
+	best, cur := 0, 0
+	for p := r.lo; p < len(r.md.ents); p++ {
+		if !r.md.ents[p].live && r.cntAt(p) > 0 {
+			cur++
+			best = max(best, cur)
+		} else {
+			cur = 0
+		}
+	}
+	return best
+}
+
 func (r *runner) leaving(it *iter) {
 	if r.shared(it) {
 		r.info.SharedNode++
@@ -827,9 +965,9 @@ func (r *runner) hasNext(it *iter) *vstat.Violation {
 			r.where(), got, it.id, it.pos, want, r.liveString())
 	}
 	if want {
-		it.pos = n
+		r.setPos(it, n)
 	} else {
-		it.pos = len(md.ents)
+		r.setPos(it, len(md.ents))
 		it.reachedEnd, it.endSeq = true, len(md.ents)
 	}
 	it.hnSet, it.hnRes, it.hnMut = true, got, r.mut
@@ -863,7 +1001,7 @@ func (r *runner) next(it *iter) *vstat.Violation {
 				r.where(), it.id, it.pos, e.Key, e.Value, r.liveString())
 		}
 		// key/value are documented to be default values "maybe": not compared
-		it.pos = len(md.ents)
+		r.setPos(it, len(md.ents))
 		it.reachedEnd, it.endSeq = true, len(md.ents)
 		return nil
 	}
@@ -882,9 +1020,9 @@ func (r *runner) next(it *iter) *vstat.Violation {
 	}
 	// the iterator is now in front of the next entry that is live at this moment (or at the end)
 	if nn := md.nextLive(n + 1); nn >= 0 {
-		it.pos = nn
+		r.setPos(it, nn)
 	} else {
-		it.pos = len(md.ents)
+		r.setPos(it, len(md.ents))
 	}
 	return nil
 }
@@ -896,7 +1034,14 @@ func (r *runner) closeIt(i int) *vstat.Violation {
 	}
 	r.leaving(it)
 	it.it.Close() // the error result is not specified: not judged
-	r.its = append(r.its[:i], r.its[i+1:]...)
+	if r.many {
+		r.cntAdd(it.pos, -1)
+	}
+	if r.many && i == 0 {
+		r.its = r.its[1:] // no copying: closing tens of thousands of iterators, first one first
+	} else {
+		r.its = append(r.its[:i], r.its[i+1:]...)
+	}
 	r.closedAny = true
 	if len(r.its) == 0 && r.drained {
 		r.drained = false
